@@ -610,8 +610,13 @@ Record codec_case := mkCC {
   cc_enc_ok : list bool;               (* observed: EncodeTo returned nil error [protobuf; JSON] *)
   cc_dec_pb : outcome value;           (* observed: DecodeFrom (EncodeTo m), protobuf (Err when either failed) *)
   cc_dec_js : option (outcome value);  (* same, JSON; None = the harness found it textually identical to cc_dec_pb *)
-  cc_counts : list (list Z)            (* observed, per encoding that encoded and decoded: [n reported by EncodeTo; bytes written;
+  cc_counts : list (list Z);           (* observed, per encoding that encoded and decoded: [n reported by EncodeTo; bytes written;
                                           n reported by DecodeFrom; Transport tx messages; tx bytes; rx messages; rx bytes] *)
+  cc_shapes : list (list Z)            (* observed, the same encoding run again through other io.Reader / io.Writer shapes (sampled):
+                                          [direction 0 = DecodeFrom, 1 = EncodeTo; encoding 0 = protobuf, 1 = JSON; shape id;
+                                           n reported by the codec; bytes the codec pulled from the reader (resp. bytes the
+                                           writer received); length of the encoding; 1 if the decoded message (resp. the
+                                           written bytes) equals the one of the plain bytes.Reader / bytes.Buffer run, else 0] *)
 }.
 
 Definition cc_js (c : codec_case) : outcome value :=
@@ -622,7 +627,18 @@ Definition codec_corr (c : codec_case) : bool :=
   forallb (Bool.eqb (is_ok e)) (cc_enc_ok c)
   && match cc_proto c with Some o => outcome_sim o e | None => true end
   && outcome_eqb (model_roundtrip (cc_msg c)) (cc_dec_pb c)
-  && outcome_eqb (model_roundtrip (cc_msg c)) (cc_js c).
+  && outcome_eqb (model_roundtrip (cc_msg c)) (cc_js c)
+  (* the model's count (encode_count / decode_count): the length of the buffer, whatever the reader or writer *)
+  && forallb (fun l => match l with [_; _; _; n; _; len; _] => n =? len | _ => false end) (cc_shapes c).
+
+(* reader / writer shapes: the reported count is what was pulled from the reader (resp. handed to the
+   writer), that is the whole encoding - the input is exactly one encoding, so the JSON decoder has
+   nothing to read ahead into - and the result is the one of the plain run *)
+Definition shape_ok (l : list Z) : bool :=
+  match l with
+  | [_; _; _; n; moved; len; same] => (n =? moved) && (moved =? len) && (same =? 1)
+  | _ => false
+  end.
 
 Definition counts_ok (l : list Z) : bool :=
   match l with
@@ -642,6 +658,7 @@ Definition codec_ok (c : codec_case) : bool :=
    else true)
   && outcome_eqb (cc_dec_pb c) (cc_js c)
   && forallb counts_ok (cc_counts c)
+  && forallb shape_ok (cc_shapes c)
   && (if is_ok (cc_dec_pb c) && is_ok (cc_js c) then Nat.eqb (length (cc_counts c)) 2 else true).
 
 Definition codec_judge (c : codec_case) : N :=
